@@ -182,6 +182,9 @@ func (p cfgPath) GetValue(cfg *Config, opt *options) (value, Error) {
 	field := fields[0]
 	v, err := field.GetValue(opt, cur)
 	if err != nil {
+		if isCyclicError(err) {
+			return nil, err
+		}
 		return nil, raiseMissing(cfg, field.String())
 	}
 	return v, nil
@@ -190,11 +193,22 @@ func (p cfgPath) GetValue(cfg *Config, opt *options) (value, Error) {
 func (n namedField) GetValue(opts *options, elem value) (value, Error) {
 	cfg, err := elem.toConfig(opts)
 	if err != nil {
+		if isCyclicError(err) {
+			return nil, raiseCyclicOnPath(elem, err)
+		}
 		return nil, raiseExpectedObject(opts, elem)
 	}
 
 	v, _ := cfg.fields.get(n.name)
 	return v, nil
+}
+
+// raiseCyclicOnPath reports that elem, a reference met while walking a path,
+// can not be evaluated without re-entering itself: a cyclic reference on the
+// way is no missing or mistyped setting.
+func raiseCyclicOnPath(elem value, err error) Error {
+	ctx := elem.Context()
+	return raisePathErr(ErrCyclicReference, elem.meta(), err.Error(), ctx.path("."))
 }
 
 func (i idxField) GetValue(opts *options, elem value) (value, Error) {
@@ -204,6 +218,9 @@ func (i idxField) GetValue(opts *options, elem value) (value, Error) {
 			return elem, nil
 		}
 
+		if isCyclicError(err) {
+			return nil, raiseCyclicOnPath(elem, err)
+		}
 		return nil, raiseExpectedObject(opts, elem)
 	}
 
